@@ -255,6 +255,9 @@ func Font(r *rand.Rand, o Opts) (*sfnt.Font, *Info) {
 				default:
 					c = rune(0x41 + gid%200)
 				}
+				if r.IntN(60) == 0 {
+					c = 0 // U+0000 mapped (to a ".null" glyph), the first code of all
+				}
 				if !o.Plain && r.IntN(40) == 0 {
 					// the ends of the code space
 					if cmKind == "12" || cmKind == "both" {
